@@ -314,3 +314,30 @@ Definition obs_equiv (a b : obs) : Prop :=
   | ObNew, ObNew => True
   | _, _ => False
   end.
+
+(* ------------------------------------------------------------------ *)
+(* Sums of any number of contrasts (fixed effects).
+   c1 + c2 + ... + ck is evaluated left to right: fold of __add__.
+   FMRILinearModel.contrast accumulates the session contrasts in a loop, skipping the
+   sessions whose contrast vector is null:
+       contrast_ = None
+       for glm, con in zip(self.glms, contrasts):
+           if np.all(con == 0): warn(...)
+           elif contrast_ is None: contrast_ = glm.contrast(con, ...)
+           else: contrast_ = contrast_ + glm.contrast(con, ...)                         *)
+Definition c_sum (c : contrast) (r : list contrast) : contrast := fold_left c_add r c.
+Fixpoint fixed_effects_from (acc : option contrast) (sessions : list (option contrast)) : option contrast :=
+  match sessions with
+  | [] => acc
+  | None :: r => fixed_effects_from acc r
+  | Some c :: r => fixed_effects_from (Some (match acc with None => c | Some a => c_add a c end)) r
+  end.
+Definition fixed_effects (sessions : list (option contrast)) : option contrast :=
+  fixed_effects_from None sessions.
+(* the non-null sessions, in order *)
+Fixpoint non_null (sessions : list (option contrast)) : list contrast :=
+  match sessions with
+  | [] => []
+  | None :: r => non_null r
+  | Some c :: r => c :: non_null r
+  end.
